@@ -89,13 +89,26 @@ def run_tlc(d, module, args, timeout, workers=None):
     return rc, out, time.time() - t0
 
 
-def model_check(cfg_name, timeout=600, module="MC_Eco", extra=None):
-    """Exhaustive TLC run of spec/cfg/<cfg_name>.cfg.  Returns dict with states,
+def strip_props(cfg):
+    cfg = re.sub(r"^(INVARIANTS?|PROPERTIES|PROPERTY)\n(  .*\n)*", "", cfg, flags=re.M)
+    return cfg
+
+
+def model_check(cfg_name, timeout=600, module="MC_Eco", invariants=None, properties=None, extra=None):
+    """Exhaustive TLC run of spec/cfg/<cfg_name>.cfg with the given formulas
+    (None = the ones listed in the file).  Returns dict with states,
     transitions, ok, output tail."""
     d = scratch("mc")
     try:
         _copy_spec(d)
-        shutil.copy(os.path.join(SPEC, "cfg", cfg_name + ".cfg"), os.path.join(d, module + ".cfg"))
+        cfg = open(os.path.join(SPEC, "cfg", cfg_name + ".cfg")).read()
+        if invariants is not None or properties is not None:
+            cfg = strip_props(cfg)
+            if invariants:
+                cfg += "INVARIANTS\n" + "".join("  %s\n" % x for x in invariants)
+            if properties:
+                cfg += "PROPERTIES\n" + "".join("  %s\n" % x for x in properties)
+        open(os.path.join(d, module + ".cfg"), "w").write(cfg)
         rc, out, wall = run_tlc(d, module + ".tla", extra or [], timeout, workers=NCPU)
         res = {"cfg": cfg_name, "rc": rc, "wall_s": round(wall, 1), "ok": False, "states": 0, "transitions": 0,
                "complete": False}
@@ -126,7 +139,7 @@ def simulate(cfg_name, num, depth, seed, module="MC_Eco", timeout=600):
         # behaviours are generated from the same constants, with the biased
         # next-state relation and without properties
         cfg = re.sub(r"^SPECIFICATION .*$", "INIT Init\nNEXT GenNext", cfg, flags=re.M)
-        cfg = re.sub(r"^(INVARIANTS?|PROPERTIES|PROPERTY)\n(  .*\n)*", "", cfg, flags=re.M)
+        cfg = strip_props(cfg)
         cfg = re.sub(r"^VIEW .*\n", "", cfg, flags=re.M)
         open(os.path.join(d, module + ".cfg"), "w").write(cfg)
         os.makedirs(os.path.join(d, "b"))
